@@ -54,12 +54,16 @@ def _make_transport():
             self.producer = None
             self.events = []
 
+        limit = None
+
         def write(self, data):
             assert isinstance(data, bytes)
             self.out.append(data)
+            if self.limit is not None and len(self.out) > self.limit:
+                raise Runaway()
 
         def writeSequence(self, seq):
-            self.out.append(b"".join(seq))
+            self.write(b"".join(seq))
 
         def loseConnection(self):
             self.disconnecting = True
@@ -95,6 +99,10 @@ def _make_transport():
 
 class HarnessBug(Exception):
     pass
+
+
+class Runaway(Exception):
+    """The server keeps answering far more requests than the input has room for."""
 
 
 def serve(segments, mode, gap=0):
@@ -154,29 +162,35 @@ def serve(segments, mode, gap=0):
         request.write(text[11:])
         request.finish()
 
+    # a request needs >= 16 bytes and is answered with < 16 writes
+    tr.limit = 16 * (sum(len(x) for x in segments) // 16 + 2) + 16
     if not 0 <= gap < 100:
         raise HarnessBug("gap must stay below the idle timeout")
     step = (proto.timeOut or 0) * gap / 100.0
     delivered = 0
-    for seg in segments:
-        if tr.disconnecting:
-            break
-        if step:
-            clock.advance(step)
-            if tr.disconnecting:        # timed out
+    runaway = False
+    try:
+        for seg in segments:
+            if tr.disconnecting:
                 break
-        proto.dataReceived(seg)
-        delivered += len(seg)
-        if mode == "after":
-            while pending:
-                finish_one()
-        elif mode == "end":
-            # a paused transport delivers nothing more: let the application
-            # answer until the channel resumes reading
-            while pending and tr.paused:
-                finish_one()
-    while pending:
-        finish_one()
+            if step:
+                clock.advance(step)
+                if tr.disconnecting:        # timed out
+                    break
+            proto.dataReceived(seg)
+            delivered += len(seg)
+            if mode == "after":
+                while pending:
+                    finish_one()
+            elif mode == "end":
+                # a paused transport delivers nothing more: let the application
+                # answer until the channel resumes reading
+                while pending and tr.paused:
+                    finish_one()
+        while pending:
+            finish_one()
+    except Runaway:
+        runaway = True
     if errors:
         raise HarnessBug(repr(errors[0]))
     out = b"".join(tr.out)
@@ -184,7 +198,7 @@ def serve(segments, mode, gap=0):
     from twisted.python.failure import Failure
     from twisted.internet.error import ConnectionDone
     proto.connectionLost(Failure(ConnectionDone()))
-    return dict(requests=seen, written=out, closed=closed)
+    return dict(requests=seen, written=out, closed=closed, runaway=runaway)
 
 
 # --------------------------------------------------------------------------
@@ -264,6 +278,8 @@ def describe(obs):
 
 
 def first_difference(whole, split):
+    if whole.get("runaway") or split.get("runaway"):
+        return "runaway-processing"
     if len(whole["requests"]) != len(split["requests"]):
         return "request-count"
     for a, b in zip(whole["requests"], split["requests"]):
@@ -292,6 +308,10 @@ def run_case(ctx, case):
     mode = case["mode"]
     gap = case.get("gap", 0)
     whole = serve([data] if data else [], mode, gap)
+    if whole["runaway"]:
+        ctx.violation("runaway-processing", dict(pieces=compact["pieces"], mode=mode, cuts=[]),
+                      "one-piece delivery of %r: the server keeps answering (%d requests) although the input is exhausted"
+                      % (data[:300], len(whole["requests"])))
     if gap:
         ctx.count("streams:timed (clock advances %d%% of the idle timeout before each delivery)" % gap)
     in_eoh, in_chunk, between, _ = interesting_offsets(case)
